@@ -9,6 +9,7 @@ CONSTANTS
   MaxMut = 0
   MaxConds = 0
   UseOpts = FALSE
+  UseBlocks = FALSE
   MaxObs = 0
   MaxRagged = 3
   MaxRaggedInt = 2
